@@ -16,7 +16,7 @@ SHARD = 400
 
 
 def _run_shard(args):
-    engine, tag, k, cases, extra = args
+    engine, tag, k, cases, funcs = args
     name = f"cases_{tag}_{engine}_{k}"
     path = os.path.join(CASEDIR, name + ".v")
     with open(path, "w") as f:
@@ -24,48 +24,53 @@ def _run_shard(args):
         f.write(f"Definition cases : list Corr_{engine}.case := [\n")
         f.write(";\n".join("(" + to_coq(c["i"]) + ",\n " + to_coq(c["o"]) + ")" for c in cases))
         f.write("\n].\n")
-        f.write(f"Eval vm_compute in (bad_indices Corr_{engine}.corr cases, bad_indices Corr_{engine}.oracle cases{extra}).\n")
+        # a function name starting with '+' is reported where it is TRUE (known-finding classes)
+        terms = []
+        for fn in funcs:
+            if fn.startswith("+"):
+                terms.append(f"bad_indices (fun x => negb (Corr_{engine}.{fn[1:]} x)) cases")
+            else:
+                terms.append(f"bad_indices Corr_{engine}.{fn} cases")
+        f.write("Eval vm_compute in (" + ", ".join(terms) + ", 0).\n")
     try:
         p = subprocess.run(["coqc", "-noglob", "-Q", THEORIES, "BS", path], capture_output=True, text=True,
-                           timeout=900, cwd=CASEDIR)
+                           timeout=1500, cwd=CASEDIR)
     except subprocess.TimeoutExpired:
         return {"ok": False, "err": f"coqc timeout on {path}", "path": path}
     out = " ".join(p.stdout.split())
     if p.returncode != 0:
         return {"ok": False, "err": (p.stderr or p.stdout)[-2000:], "path": path}
-    m = re.search(r"=\s*\((\[[^\]]*\]),\s*(\[[^\]]*\])(.*?)\)\s*:", out)
-    if not m:
+    m = re.search(r"=\s*\((.*),\s*0\)\s*:", out)
+    lists = re.findall(r"\[([^\]]*)\]", m.group(1)) if m else None
+    if lists is None or len(lists) != len(funcs):
         return {"ok": False, "err": "unparsable coqc output: " + out[-500:], "path": path}
-
-    def nums(s):
-        return [int(x) for x in re.findall(r"\d+", s)]
-
     for ext in (".vo", ".vok", ".vos", ".glob"):
         try:
             os.remove(os.path.join(CASEDIR, name + ext))
         except OSError:
             pass
-    return {"ok": True, "corr": nums(m.group(1)), "oracle": nums(m.group(2)), "extra": m.group(3), "path": path}
+    return {"ok": True, "lists": [[int(x) for x in re.findall(r"\d+", l)] for l in lists], "path": path}
 
 
-def evaluate(engine, tag, cases, jobs=16, extra=""):
-    """returns (bad_corr_indices, bad_oracle_indices, errors) with indices into `cases`"""
+def evaluate(engine, tag, cases, funcs=("corr", "oracle"), jobs=16, shard=SHARD):
+    """returns ({func: [indices into cases]}, errors)"""
     os.makedirs(CASEDIR, exist_ok=True)
-    shards = [(engine, tag, k, cases[i:i + SHARD], extra) for k, i in enumerate(range(0, len(cases), SHARD))]
-    bad_corr, bad_oracle, errors = [], [], []
+    shards = [(engine, tag, k, cases[i:i + shard], funcs) for k, i in enumerate(range(0, len(cases), shard))]
+    res = {fn: [] for fn in funcs}
+    errors = []
     with ThreadPoolExecutor(max_workers=jobs) as ex:
-        for (sh, res) in zip(shards, ex.map(_run_shard, shards)):
-            base = sh[2] * SHARD
-            if not res["ok"]:
-                errors.append(res)
+        for (sh, r) in zip(shards, ex.map(_run_shard, shards)):
+            base = sh[2] * shard
+            if not r["ok"]:
+                errors.append(r)
                 continue
-            bad_corr += [base + i for i in res["corr"]]
-            bad_oracle += [base + i for i in res["oracle"]]
+            for fn, l in zip(funcs, r["lists"]):
+                res[fn] += [base + i for i in l]
             try:
-                os.remove(res["path"])
+                os.remove(r["path"])
             except OSError:
                 pass
-    return bad_corr, bad_oracle, errors
+    return res, errors
 
 
 def model_output(engine, case):
